@@ -89,7 +89,7 @@ PROPS["C06"] = dict(
                "(idle channel chosen, nobody displaced; when all are busy a single pedal-held user goes before a key-down one).",
     level_note="trusted: snapshot reader; 10-minute horizon enforced as a precondition (the scoring code makes the property false after about 66 simulated minutes of holding a note)",
     legs=[
-        Leg("alloc", RT_SRC, "fast", ["--prop", "C06", "--depth", "3", "--starts", "fresh,alloc=0,alloc=1,alloc=2,arp=1,arp=1 alloc=1,nearfull chips=2,nearfull chips=3 arp=1"],
+        Leg("alloc", RT_SRC, "fast", ["--prop", "C06", "--depth", "3", "--starts", "fresh,alloc=0,alloc=1,alloc=2,arp=1,arp=1 alloc=1,nearfull chips=2,nearfull chips=3 arp=1,nearfull chips=8"],
             ["--prop", "C06", "--depth", "5", "--starts", "fresh,alloc=0,alloc=1,alloc=2,arp=1,arp=1 alloc=1,nearfull chips=2,nearfull chips=3 arp=1,nearfull chips=8"], timeout_thorough=14000),
         # same exploration with every release time of the bank x30 (3 s .. 9 s tails): idle channels are still releasing when the next note-on is scored
         Leg("longrelease", RT_SRC, "fast", ["--prop", "C06", "--koff-scale", "30", "--depth", "3", "--starts", "fresh,alloc=0,alloc=1,alloc=2,nearfull chips=2,nearfull chips=1 arp=1"],
